@@ -275,6 +275,8 @@ def r12f(ctx):
 def run(ctx):
     r12f(ctx)
     r12e(ctx)
+    from ..memo import e13
+    e13(ctx)          # a printer reused for a second document prints it as a fresh one would
     r12d(ctx)
     e9_json(ctx)
     r12c(ctx)
